@@ -6,6 +6,7 @@ use std::panic::{catch_unwind, AssertUnwindSafe};
 
 pub mod algebra;
 pub mod codec;
+pub mod extra;
 pub mod iter32;
 pub mod lsb0;
 pub mod multi;
@@ -47,6 +48,10 @@ pub trait It64 {
     fn has_advance(&self) -> bool {
         true
     }
+    /// `Iterator::fold` / `DoubleEndedIterator::rfold` (the specialised impls of treemap/iter.rs), `ExactSizeIterator::len`
+    fn fold_fwd(self: Box<Self>) -> (u64, u64);
+    fn fold_rev(self: Box<Self>) -> (u64, u64);
+    fn exact_len(&self) -> Option<usize>;
 }
 
 impl State {
@@ -118,7 +123,7 @@ pub fn show_opt<T: std::fmt::Display>(o: Option<T>) -> String {
 pub type HResult = Option<String>;
 
 fn dispatch(st: &mut State, toks: &[&str]) -> String {
-    let families: [fn(&mut State, &[&str]) -> HResult; 9] = [
+    let families: [fn(&mut State, &[&str]) -> HResult; 10] = [
         ops32::handle,
         algebra::handle,
         iter32::handle,
@@ -128,6 +133,7 @@ fn dispatch(st: &mut State, toks: &[&str]) -> String {
         lsb0::handle,
         tcodec::handle,
         ub::handle,
+        extra::handle,
     ];
     for f in families {
         if let Some(r) = f(st, toks) {
